@@ -139,7 +139,46 @@ func c01(c *an.Check) {
 }
 
 // sigVerifyWithPublicGates: pubKey.Verify only behind the four rejections (shared by C01 and C02).
+// ed25519VerifyGates: the Ed25519 leg under every signature verification — a parsed public key is exactly 32 bytes
+// (crypto/ed25519.Verify panics on any other length) and a key of small order never verifies anything (for such keys
+// the constant signature (identity, 0) verifies every message: they have no private key).
+func ed25519VerifyGates(c *an.Check) {
+	p := c.P
+	upk := p.Func("crypto", "", "UnmarshalEd25519PublicKey")
+	c.Gate(an.GateSpec{Construct: "crypto.UnmarshalEd25519PublicKey success-return", Fn: upk, Sink: successReturn, Reqs: []an.Req{
+		an.FactReq("len(data)==32", func(s *an.State, x, y ssa.Value, r an.Rel) bool {
+			return r == an.EQ && an.IsIntConst(y, 32) && an.LenOf(s, x, func(a ssa.Value) bool { return an.IsParam(a, 0) })
+		})}})
+	vf := p.Func("crypto", "Ed25519PublicKey", "Verify")
+	kF := fv(c, "crypto", "Ed25519PublicKey", "k")
+	if vf == nil || kF == nil {
+		c.Undecided("GATE", "crypto.Ed25519PublicKey.Verify", nil, "unresolved anchor")
+		return
+	}
+	cLow := an.R("util/extra25519", "", "IsEdLowOrder")
+	c.Gate(an.GateSpec{Construct: "crypto.Ed25519PublicKey.Verify reports a valid signature", Fn: vf,
+		Sink: func(s *an.State, ins ssa.Instruction) bool {
+			ret, ok := ins.(*ssa.Return)
+			return ok && !s.IsFalse(s.RetVal(ret, 0))
+		},
+		Reqs: []an.Req{
+			{Name: "the key is not of small order (IsEdLowOrder(k) == false)", Holds: func(s *an.State, at ssa.Instruction) bool {
+				for _, call := range an.Calls(vf, cLow) {
+					if s.IsFalse(call) && an.IsFieldLoad(s.Canon(an.ConvOf(call.Call.Args[0])), kF) {
+						return true
+					}
+				}
+				return false
+			}},
+			{Name: "the verdict is ed25519.Verify(k, data, sig)", Holds: func(s *an.State, at ssa.Instruction) bool {
+				v := an.ResultCallTo(s.RetVal(at.(*ssa.Return), 0), an.X("crypto/ed25519", "", "Verify"))
+				return v != nil && an.IsFieldLoad(s.Canon(an.ConvOf(v.Call.Args[0])), kF) && an.IsParam(v.Call.Args[1], 1) && an.IsParam(v.Call.Args[2], 2)
+			}},
+		}})
+}
+
 func sigVerifyWithPublicGates(c *an.Check) {
+	ed25519VerifyGates(c)
 	vwp := c.P.Func("peer", "Signature", "VerifyWithPublic")
 	isHT := func(s *an.State, v ssa.Value) bool { return getterOn(s, v, "peer", "Signature", "GetHashType") }
 	c.Gate(an.GateSpec{Construct: "peer.Signature.VerifyWithPublic key-verify call", Fn: vwp,
